@@ -109,6 +109,46 @@ void judge_image(World &W, const string &dir, const Mutation &m) {
       for (auto &kv : rows) { auto e = W.ever.find(kv.first); if (e == W.ever.end() || !e->second.count(kv.second)) { violation("C11", "invented_value", "%s: a scan that ended with %s yielded %s=%s, which was never written", where, rcname(src), printable(kv.first).c_str(), printable(kv.second).c_str()); break; } }
     }
   }
+  // iterator used as a lookup and for bounded range scans: the status is read while the iterator is still valid, i.e.
+  // possibly after it has skipped a damaged block - an OK status then vouches for what was returned so far
+  {
+    ldb_readopt_t ro = *ldb_iteropt_default; ro.verify_checksums = 1;
+    ldb_iter_t *it = ldb_iterator(db, &ro);
+    std::vector<std::pair<string, string>> live(W.model.begin(), W.model.end());
+    for (size_t i = 0; i < live.size() && !failed(); i++) {
+      ldb_slice_t t = S(live[i].first);
+      ldb_iter_seek(it, &t);
+      count("range_probes");
+      for (size_t step = 0; step < 3 && i + step < live.size(); step++) {
+        int st = ldb_iter_status(it);
+        if (st != LDB_OK) { any_error = true; break; }
+        if (!ldb_iter_valid(it)) { // exhausted with OK status although live keys remain
+          violation("C11", "silently_missing", "%s: seek(%s)%s leaves the iterator exhausted with status OK although live key %s follows", where, printable(live[i].first).c_str(), step ? " + next" : "", printable(live[i + step].first).c_str());
+          break;
+        }
+        string k = str_of(ldb_iter_key(it)), v = str_of(ldb_iter_value(it));
+        if (k != live[i + step].first) { violation("C11", "silently_missing", "%s: seek(%s)%s lands on %s with status OK; live key %s was skipped without any error", where, printable(live[i].first).c_str(), step ? " + next" : "", printable(k).c_str(), printable(live[i + step].first).c_str()); break; }
+        if (v != live[i + step].second) { violation("C11", "wrong_value", "%s: iterator positioned by seek(%s) shows a wrong value for %s with status OK", where, printable(live[i].first).c_str(), printable(k).c_str()); break; }
+        ldb_iter_next(it);
+      }
+    }
+    // and backwards: seek_le + prev
+    for (size_t i = live.size(); i-- > 0 && !failed();) {
+      if (i % 3) continue;
+      ldb_slice_t t = S(live[i].first);
+      ldb_iter_seek_le(it, &t);
+      for (size_t step = 0; step < 3 && step <= i; step++) {
+        int st = ldb_iter_status(it);
+        if (st != LDB_OK) { any_error = true; break; }
+        if (!ldb_iter_valid(it)) { violation("C11", "silently_missing", "%s: seek_le(%s)%s leaves the iterator exhausted with status OK although live key %s precedes", where, printable(live[i].first).c_str(), step ? " + prev" : "", printable(live[i - step].first).c_str()); break; }
+        string k = str_of(ldb_iter_key(it)), v = str_of(ldb_iter_value(it));
+        if (k != live[i - step].first) { violation("C11", "silently_missing", "%s: seek_le(%s)%s lands on %s with status OK; live key %s was skipped without any error", where, printable(live[i].first).c_str(), step ? " + prev" : "", printable(k).c_str(), printable(live[i - step].first).c_str()); break; }
+        if (v != live[i - step].second) { violation("C11", "wrong_value", "%s: iterator positioned by seek_le(%s) shows a wrong value for %s with status OK", where, printable(live[i].first).c_str(), printable(k).c_str()); break; }
+        ldb_iter_prev(it);
+      }
+    }
+    ldb_iter_destroy(it);
+  }
   probe(any_error ? "outcome:error_reported" : "outcome:all_correct");
   ldb_close(db);
 }
